@@ -85,7 +85,8 @@ def judge(byc, res):
 
 
 def cfgs(tier):
-    cs = [l3.Cfg("base"), l3.Cfg("nbi", num=True, bool=True, ips=True), l3.Cfg("repl", replacement='X"\\é', num=True)]
+    cs = [l3.Cfg("base"), l3.Cfg("nbi", num=True, bool=True, ips=True), l3.Cfg("repl", replacement='X"\\é', num=True),
+          l3.Cfg("iprepl", replacement="10.1.2.3:27017", ips=True, num=True)]
     if tier == "thorough":
         cs += [l3.Cfg("n", num=True), l3.Cfg("b", bool=True), l3.Cfg("i", ips=True), l3.Cfg("nb", num=True, bool=True),
                l3.Cfg("empty", replacement="", bool=True, ips=True), l3.Cfg("hex", replacement="0" * 24, num=True, bool=True, ips=True)]
